@@ -42,7 +42,7 @@ CHECKS = {
         "technique": "deterministic simulation with fault injection: seeded history/fault search over real models with pairwise output oracle, ddmin minimisation and exact replay",
     },
     "C11": {
-        "text": "Seeded search over single tfl layers with themed non-default constructor arguments (PWLCalibration, CategoricalCalibration, Lattice incl. single-tuple 2D constraints, Linear, KroneckerFactoredLattice, RTL incl. grouped inputs, CDF, ParallelCombination), hand-assembled stacks and the four premade model classes (incl. AggregateFunction on ragged inputs), driven through histories of training steps, checkpoints (config JSON + legacy-H5 / v3 / TF-format weights, full H5, .keras, SavedModel, in-memory weights), soft crashes with global-state skew, hard crashes (fresh interpreter, other PYTHONHASHSEED, only tfl.premade.get_custom_objects()), restarts that re-run the model-building code and load saved weights (seed-derived structure is recomputed), lost newest checkpoint and second-hop restores. At every restore the rebuilt object's model config, sub-layer configs, constructor-argument attributes, variables and attached constraints, outputs on recorded probes, regularization penalty and assert_constraints status are compared with the durable image recorded by a trivial in-memory reference model; in addition every layer, constraint, initializer, regularizer and config object reachable from the model is rebuilt from get_config() twice from the same dictionary and compared by config and by behaviour.",
+        "text": "Seeded search over single tfl layers with themed non-default constructor arguments (PWLCalibration, CategoricalCalibration, Lattice incl. single-tuple 2D constraints, Linear, KroneckerFactoredLattice, RTL incl. grouped inputs, CDF, ParallelCombination), hand-assembled stacks and the four premade model classes (incl. AggregateFunction on ragged inputs), driven through histories of training steps, checkpoints (config JSON + legacy-H5 / v3 / TF-format weights, full H5, .keras, SavedModel, in-memory weights), soft crashes with global-state skew, hard crashes (fresh interpreter, other PYTHONHASHSEED, only tfl.premade.get_custom_objects()), restarts that re-run the model-building code and load saved weights (seed-derived structure is recomputed), lost newest checkpoint and second-hop restores. At every restore the rebuilt object's model config, sub-layer configs, constructor-argument attributes, variables and attached constraints, outputs on recorded probes, regularization penalty and assert_constraints status are compared with the durable image recorded by a trivial in-memory reference model; in addition every layer, constraint, initializer, regularizer and config object reachable from the model, and the premade model object itself, is rebuilt from get_config() twice from the same dictionary (inside a custom_object_scope, and - where from_config declares custom_objects - through that parameter with no scope) and compared by config and by behaviour; the thorough tier requires each of the 39 instantiable tensorflow_lattice classes that define get_config to have been rebuilt at least once.",
         "design_ref": "DESIGN.md sections 2 and 5",
         "note": "Trusted: h5py/zip/SavedModel writers, atomic checkpoint files, equality tolerance 1e-6*(1+|y|); Keras-only artefacts (optimizer slots in legacy H5, v3 weight files of compiled models) are avoided.",
         "technique": "deterministic simulation with fault injection: seeded crash-point/restart search against an in-memory durable-image reference model, ddmin minimisation and exact replay",
